@@ -146,6 +146,18 @@ def report_missing_scan(rep, w: Walker, what: str, pre: str = "") -> bool:
                 bufs.setdefault(e.target[1], e)
     if len(bufs) < 2:
         return False
+    # an insertion loop over one of the buffers IS there (it compares two slots of the same buffer with `<`): then the
+    # scan was not recognised for another reason (its surroundings were restructured) - that is not a finding
+    from .ir import subterms
+    from .rules_heap import strip_old
+    for li in w.loops.values():
+        conds = [li.cond] if li.cond is not None else []
+        conds += [g for e in w.events if li.lid in e.loops and e.kind == "break" for g, _ in e.guards]
+        for c in conds:
+            for t in subterms(c):
+                if t[0] == "cmp" and t[1] in ("<", "<=") and t[2][0] == "idx" and t[3][0] == "idx" \
+                        and strip_old(t[2][1]) == strip_old(t[3][1]) and strip_old(t[2][1]) in bufs:
+                    return False
     ev = min(bufs.values(), key=lambda e: e.seq)
     rep.ev(pre + "KNN-insertion", ev, False,
            f"{what}: candidates are written into slot k of the k+1-slot buffers, but no loop that moves the new entry "
